@@ -54,7 +54,7 @@ type cbRec struct {
 
 func TestC17_ReadAndWriteInFlight(t *testing.T) {
 	rec := evid.For("C17")
-	rec.SetRule("rapid schedules on a real handshake against a raw harness server over the real AsyncAdapter: peer sends data messages (1-2 fragments), pings, optionally a close; the application starts AsyncNextFrame/AsyncNextMessage (one read outstanding), AsyncWrite/AsyncWriteFrame/AsyncFlush (up to three application writes outstanding), AsyncClose, in generated positions relative to PollOne calls, and completion callbacks that themselves re-arm the read and/or start the next write (echo-style, generated per callback), in particular an application write issued while the read path's automatic Pong flush has not completed; peer drains; the session ends (epilogue, with a read and/or a write in flight) with nothing, AsyncClose followed by the peer's reply, or the peer's Close followed by AsyncFlush, plus a late AsyncWrite that must be refused; oracle: exactly one Close on the wire and nothing after it, every user callback is invoked exactly once (after everything was made completable and readiness confirmed, within 40 PollOne calls), reads deliver the peer's frames/messages in order, the server-side byte stream parses completely into the expected frames in submission order (pongs echo their ping), IO.Pending() returns to 0 when nothing is outstanding; non-trivial = an application write issued while a control-reply flush was in flight, or a read and a write callback in the same PollOne; distinct = hash of the schedule")
+	rec.SetRule("rapid schedules on a real handshake against a raw harness server over the real AsyncAdapter: peer sends data messages (1-2 fragments), pings, optionally a close; the application starts AsyncNextFrame/AsyncNextMessage (one read outstanding), AsyncWrite/AsyncWriteFrame/AsyncFlush (up to three application writes outstanding), AsyncClose, in generated positions relative to PollOne calls, and completion callbacks that themselves re-arm the read and/or start the next write (echo-style, generated per callback), in particular an application write issued while the read path's automatic Pong flush has not completed; peer drains; the session ends (epilogue, with a read and/or a write in flight) with nothing, AsyncClose followed by the peer's reply, the peer's Close followed by AsyncFlush (plus a late AsyncWrite that must be refused), or a message larger than the buffer handed to AsyncNextMessage arriving while an application write is in flight; oracle: exactly one Close on the wire and nothing after it, every user callback is invoked exactly once (after everything was made completable and readiness confirmed, within 40 PollOne calls), reads deliver the peer's frames/messages in order, the server-side byte stream parses completely into the expected frames in submission order (pongs echo their ping), IO.Pending() returns to 0 when nothing is outstanding; non-trivial = an application write issued while a control-reply flush was in flight, or a read and a write callback in the same PollOne; distinct = hash of the schedule")
 	rec.Assume("messages <= 2 KiB so that the adapter's blocking net.Conn.Write always fits the socket buffer; one read outstanding at a time, up to three application writes (they queue behind whatever flush is in flight; the automatic control replies of the read path are the overlap under test)")
 	overlapKnown := known.Listed("C17", "overlapping-flush-drops-continuation")
 	vt.CheckSteps(t, 200, 25, func(rt *rapid.T) {
@@ -81,6 +81,7 @@ func TestC17_ReadAndWriteInFlight(t *testing.T) {
 		if srv < 0 {
 			rt.Fatalf("INFRA: server side of the handshake failed")
 		}
+		sysx.NoLinger(srv) // closing sends an RST: no TIME_WAIT sockets pile up over thousands of cases
 		defer syscall.Close(srv)
 		defer s.CloseNextLayer()
 		cfd := s.RawFd()
@@ -102,7 +103,7 @@ func TestC17_ReadAndWriteInFlight(t *testing.T) {
 		}
 		var cbs []*cbRec
 		var readCb *cbRec
-		writesOut := 0 // application writes whose callback has not run yet (up to 3 may overlap)
+		writesOut := 0              // application writes whose callback has not run yet (up to 3 may overlap)
 		var inbound []rfc6455.Frame // frames the server sent, not yet delivered to the app
 		var expWire []expOut        // frames the server must receive, in order
 		var wire []byte
@@ -401,7 +402,7 @@ func TestC17_ReadAndWriteInFlight(t *testing.T) {
 			},
 			"poll":  func(rt *rapid.T) { poll() },
 			"poll2": func(rt *rapid.T) { poll() },
-			"": func(rt *rapid.T) { checkNow() },
+			"":      func(rt *rapid.T) { checkNow() },
 		})
 		checkNow()
 		// wind down: callbacks stop starting new operations; make the outstanding read completable and poll until every callback ran
@@ -457,7 +458,7 @@ func TestC17_ReadAndWriteInFlight(t *testing.T) {
 		// --- epilogue: how the session ends, with a read and/or a write in flight at that moment
 		ending := "none"
 		if !readEOF && !closedByUs && !peerClosed && s.State() == websocket.StateActive {
-			ending = rapid.SampledFrom([]string{"none", "asyncClose", "asyncClose", "peerClose", "peerClose"}).Draw(rt, "ending")
+			ending = rapid.SampledFrom([]string{"none", "asyncClose", "asyncClose", "peerClose", "peerClose", "oversized", "oversized"}).Draw(rt, "ending")
 		}
 		pollUntil := func(what string, done func() bool) {
 			for i := 0; i < 60 && !done(); i++ {
@@ -498,13 +499,79 @@ func TestC17_ReadAndWriteInFlight(t *testing.T) {
 			log("ending:%s", ending)
 			withRead := rapid.Bool().Draw(rt, "endRead")
 			withWrite := rapid.Bool().Draw(rt, "endWrite")
+			if ending == "oversized" {
+				// the message that is too large for the reader's buffer must be the next thing the client reads: deliver
+				// whatever the peer sent before it, and leave no read in flight
+				withRead = false
+				for k := 0; k < 200 && (len(inbound) > 0 || readCb != nil) && !readEOF; k++ {
+					if readCb == nil {
+						startRead(false)
+					} else if len(inbound) == 0 {
+						peerSend(rfc6455.Frame{Fin: true, Opcode: rfc6455.OpBinary, Payload: []byte("pad"), LenBytes: -1})
+					}
+					pollUntil("draining before the oversized message", func() bool { return readCb == nil })
+				}
+				if readEOF || len(inbound) > 0 {
+					ending = "none"
+				}
+			}
 			if withRead && readCb == nil {
 				startRead(false) // stays in flight: nothing inbound
 			}
-			if withWrite {
+			if withWrite && ending != "none" && ending != "oversized" {
 				appWrite("AsyncWrite")
 			}
 			switch ending {
+			case "oversized":
+				big := make([]byte, rapid.SampledFrom([]int{65, 300, 2000}).Draw(rt, "bigLen"))
+				for i := range big {
+					big[i] = byte(0x51 + i)
+				}
+				or := &cbRec{what: fmt.Sprintf("oversizedread#%d", len(cbs))}
+				cbs = append(cbs, or)
+				small := make([]byte, 64)
+				arm := func() {
+					log("AsyncNextMessage#%d(64-byte buffer, %d-byte message)", len(cbs)-1, len(big))
+					s.AsyncNextMessage(small, func(err error, n int, mt websocket.MessageType) {
+						noteCb(or, err)
+						log("cb:%s(%v,n=%d)", or.what, err, n)
+					})
+				}
+				// the read is armed before the message arrives (it waits in the poller), or after
+				readFirst := rapid.Bool().Draw(rt, "readArmedFirst")
+				if readFirst {
+					arm()
+					poll()
+				}
+				if rapid.Bool().Draw(rt, "bigFragmented") {
+					peerSend(rfc6455.Frame{Fin: false, Opcode: rfc6455.OpBinary, Payload: big[:40], LenBytes: -1})
+					peerSend(rfc6455.Frame{Fin: true, Opcode: rfc6455.OpContinuation, Payload: big[40:], LenBytes: -1})
+				} else {
+					peerSend(rfc6455.Frame{Fin: true, Opcode: rfc6455.OpBinary, Payload: big, LenBytes: -1})
+				}
+				inbound = nil // never delivered as a message
+				if withWrite {
+					appWrite("AsyncWrite") // in flight on the transport when the poller finds the socket readable and writable
+				}
+				if !readFirst {
+					arm()
+				}
+				pollUntil("oversized message", func() bool { return len(outstanding()) == 0 })
+				if or.err == nil {
+					fail("a %d-byte message was delivered into a 64-byte buffer without an error", len(big))
+				}
+				closedByUs = true
+				// the client gives up on the connection with a Close; which status it carries is not C17's business
+				fr := &cbRec{what: fmt.Sprintf("flushafter#%d", len(cbs))}
+				cbs = append(cbs, fr)
+				s.AsyncFlush(func(err error) { noteCb(fr, err) })
+				pollUntil("flush after the oversized message", func() bool { return len(outstanding()) == 0 })
+				collect()
+				if fs, _ := rfc6455.ParseAll(wire); len(fs) > 0 && fs[len(fs)-1].Opcode == rfc6455.OpClose {
+					expWire = append(expWire, expOut{op: rfc6455.OpClose, payload: fs[len(fs)-1].Payload, what: "close after an oversized message"})
+				} else {
+					fail("no Close frame at the end of the wire after a message that was too big for the reader")
+				}
 			case "asyncClose":
 				cr := &cbRec{what: fmt.Sprintf("close#%d", len(cbs))}
 				cbs = append(cbs, cr)
